@@ -43,12 +43,12 @@ func runC09(e *Env) {
 	e.S.Floor("C09.valid", 1)
 	ruleErrZero(e, "C09.errzero", "date")
 	ruleWrap(e, "C09.wrap", "date")
-	ruleLimit(e, "C09.limit", "date")
+	ruleLimitAccept(e, "C09.limit", "date")
 	ruleTyped(e, "C09.typed", "date")
 	e.S.Floor("C09.typed", 1)
 	e.S.Floor("C09.errzero", 5)
 	e.S.Floor("C09.wrap", 5)
-	e.S.Floor("C09.limit", 4)
+	e.S.Floor("C09.limit", 2)
 }
 
 // ---------------------------------------------------------------------------
@@ -124,6 +124,12 @@ func dateLayoutLanguages(e *Env, rule string, extra ...string) *dateLayout {
 					return fmt.Sprintf("byte@%d==%s", -af.C, c.V.ExactString()), true
 				}
 			}
+			// absolute offset from the start
+			if ic, ok := el.Index.(pred.Const); ok && ic.V != nil {
+				if c, ok := b.(pred.Const); ok && c.V != nil {
+					return fmt.Sprintf("byte@+%s==%s", ic.V.ExactString(), c.V.ExactString()), true
+				}
+			}
 		}
 		if bits, ok := a.(pred.Bits); ok {
 			if c, ok := b.(pred.Const); ok && c.V != nil && c.V.ExactString() == "0" {
@@ -189,6 +195,14 @@ func dateLayoutLanguages(e *Env, rule string, extra ...string) *dateLayout {
 	for _, k := range offKeys {
 		var off int
 		var c int
+		if strings.HasPrefix(k, "byte@+") {
+			if _, err := fmt.Sscanf(k, "byte@+%d==%d", &off, &c); err != nil || off < 0 || c < 0 || c > 127 {
+				e.S.Unk(rule, site, "layout table", "unsupported atom "+k, e.Pos(dp))
+				return nil
+			}
+			pats = append(pats, fmt.Sprintf(`^%s{%d}\x{%02x}%s*$`, any, off, c, any))
+			continue
+		}
 		if _, err := fmt.Sscanf(k, "byte@%d==%d", &off, &c); err != nil || off < 1 || c < 0 || c > 127 {
 			e.S.Unk(rule, site, "layout table", "unsupported atom "+k, e.Pos(dp))
 			return nil
